@@ -42,18 +42,28 @@ def concretise(tok, rnd: random.Random, plain=False):
     ai = 0
     ring_open = []
     nd = 0
-    for s in tok["text"]:
+    # other writings of the same meaning (not in plain concretisations): ring-bond labels %10 / %11 instead of digits, a single bond
+    # between two chain atoms written out as '-', a carbon with three bonds written as a chiral bracket atom
+    pct = (not plain) and rnd.random() < 0.3
+    prev_sym = ""
+    for pos, s in enumerate(tok["text"]):
         if s == "A":
             v = tok["val"][ai] if ai < len(tok["val"]) else 1
             # ring atoms stay carbon: small hetero rings (O1NN1) are perceived as aromatic by RDKit in one writing and not in another
             el = "C" if (plain or "R" in tok["text"]) else rnd.choice(BY_VAL[min(v, 4)])
+            if not plain and el == "C" and v == 3 and "R" not in tok["text"] and rnd.random() < 0.25:
+                el = rnd.choice(["[C@H]", "[C@@H]"])
+            if not plain and prev_sym == "A" and rnd.random() < 0.15:
+                cur += "-"
             atoms.append(el)
             cur += el
             ai += 1
         elif s in "()=#":
             cur += s
         elif s == "R":
-            dgt = "1" if "1" not in ring_open else "2"
+            dgt = "1" if "1" not in ring_open and "%10" not in ring_open else "2"
+            if pct:
+                dgt = "%10" if dgt == "1" else "%11"
             ring_open.append(dgt)
             cur += dgt
         elif s == "r":
@@ -78,6 +88,7 @@ def concretise(tok, rnd: random.Random, plain=False):
                     d._wtext = t
             items.append(d)
             nd += 1
+        prev_sym = s
     if cur:
         items.append(cur)
     t = Token(items)
